@@ -368,4 +368,70 @@ theorem scan_fuel_sufficient (L : Rat) (xs : Seq) :
     findMaximumDealingInterval L xs ≠ .error .outOfFuel :=
   scanLoop_fuel _ 0 0 _ (Nat.zero_le _) (Nat.zero_le _) (by unfold scanFuel; omega)
 
+/-! ### window length ≤ 0 (known finding F12): the scan never reaches `end >= len`, it runs `start` past the end -/
+
+theorem sameClockAhead_eq {s : Nat} (hs : s < xs.length) (e : Nat) :
+    sameClockAhead xs s e = .ok (decide (e + 1 < xs.length ∧ clockAt xs (e + 1) = clockAt xs s)) := by
+  unfold sameClockAhead
+  by_cases he : e + 1 < xs.length
+  · rw [if_pos he, idx_of_lt he, idx_of_lt hs, clockAt_of_lt he, clockAt_of_lt hs]
+    simp [he]
+  · rw [if_neg he]; simp [he]
+
+theorem scanStep_nonpos (hs : ClocksSorted xs) (hL : L ≤ 0) {s e : Nat} (he : e < xs.length)
+    (hse : s ≤ e + 1) {b : Best} {st : Step} (h : scanStep L xs s e b = .ok st) :
+    ∃ s' e' b', st = .next s' e' b' ∧ e' < xs.length ∧ s' ≤ e' + 1 := by
+  unfold scanStep at h
+  rw [if_neg (by omega)] at h
+  by_cases hsn : s < xs.length
+  · rw [sameClockAhead_eq hsn e] at h
+    by_cases hc : e + 1 < xs.length ∧ clockAt xs (e + 1) = clockAt xs s
+    · simp only [hc, and_self, decide_true] at h
+      cases h
+      exact ⟨s, e + 1, b, rfl, hc.1, by omega⟩
+    · simp only [hc, decide_false] at h
+      have hse' : s ≤ e := by
+        rcases Nat.eq_or_lt_of_le hse with heq | hlt
+        · exact absurd ⟨by omega, by rw [heq]⟩ hc
+        · omega
+      have hmono := sorted_clockAt hs hse' he
+      rw [computeDealing_eq hsn he] at h
+      by_cases h0 : clockAt xs e - clockAt xs s = 0
+      · simp only [h0, if_true] at h
+        rw [if_neg (by linarith)] at h
+        cases h
+        exact ⟨s + 1, e, _, rfl, he, by omega⟩
+      · simp only [h0, if_false] at h
+        rw [if_neg (by linarith)] at h
+        cases h
+        exact ⟨s + 1, e, _, rfl, he, by omega⟩
+  · have hs' : xs.length ≤ s := by omega
+    rcases sameClockAhead_bad hs' e with hr | hr
+    · rw [hr] at h; cases h
+    · rw [hr, computeDealing_bad hs'] at h; cases h
+
+theorem scanLoop_nonpos (hs : ClocksSorted xs) (hL : L ≤ 0) :
+    ∀ (fuel s e : Nat) (b : Best), e < xs.length → s ≤ e + 1 →
+      scanLoop L xs fuel s e b = .error .indexError ∨ scanLoop L xs fuel s e b = .error .outOfFuel := by
+  intro fuel
+  induction fuel with
+  | zero => intro s e b _ _; exact Or.inr rfl
+  | succ fuel ih =>
+    intro s e b he hse
+    unfold scanLoop
+    cases hstep : scanStep L xs s e b with
+    | error m => rw [scanStep_error hstep]; exact Or.inl rfl
+    | ok st =>
+      obtain ⟨s', e', b', rfl, he', hse'⟩ := scanStep_nonpos hs hL he hse hstep
+      exact ih s' e' b' he' hse'
+
+/-- F12 as a theorem about the model: a non-empty clock-sorted sequence and a window length ≤ 0 always end
+    in the IndexError -/
+theorem nonpositive_window_indexError (hs : ClocksSorted xs) (hL : L ≤ 0) (hne : xs ≠ []) :
+    findMaximumDealingInterval L xs = .error .indexError := by
+  have hlen : 0 < xs.length := List.length_pos_iff.mpr hne
+  rcases scanLoop_nonpos hs hL (scanFuel xs) 0 0 ⟨0, 0, 0⟩ hlen (by omega) with h | h
+  · exact h
+  · exact absurd h (scan_fuel_sufficient L xs)
+
 end Simaple.Proofs.Report
